@@ -306,14 +306,6 @@ def r7(ctx):
     ctx.soft(ok and ok2, "preprocessor:macro_definition:shared", "-D and #define must parse the macro head with the same macro_definition()", f.loc())
     # #define body: all remaining tokens, empty list when none
     dn = repo.cls("preprocessor", "DefineNode").find_method("evaluate_for_platform")
-    # in finder.find: -D loop precedes -include loop and the main associate (C04.R4 checks dominance)
-    find = repo.func("finder", "find")
-    dl = [n for n in walk_no_nested(find.node) if isinstance(n, ast.For) and "defines" in u(n.iter)]
-    ok = len(dl) == 1
-    if ok:
-        body = u(dl[0].body)
-        ok = "macro_from_definition_string(" + u(dl[0].target) + ")" in body and ".define(macro.name, macro)" in body
-    ctx.soft(ok, "finder:find:-D-loop", "every -D string must be turned into a macro and defined on the command's platform under the macro's own name", find.loc())
     ctx.floor(4)
 
 
